@@ -5,7 +5,24 @@ specific parameters; cpu_budget_s is the per-worker soft CPU budget after
 which remaining cases are skipped (=> inconclusive), cpu_hard_s the RLIMIT.
 """
 
+from . import javax
+
 REGISTRY = {
+    "C07": {
+        "level": "exploration",
+        "tiers": {
+            "quick": {"workers": 8, "n_rt": 3200},
+            "thorough": {"workers": 16, "n_rt": 60000},
+        },
+    },
+    "C08": {
+        "level": "exploration",
+        "pre": javax.pre, "post": javax.post,
+        "tiers": {
+            "quick": {"workers": 8, "n_fmt": 2400},
+            "thorough": {"workers": 16, "n_fmt": 40000},
+        },
+    },
     "C15": {
         "level": "exploration",
         "tiers": {
